@@ -665,8 +665,52 @@ class Check(object):
         return 'read:%s:after:%s' % (cls, '+'.join(kinds) or 'inserts-only')
 
 
+class StrCheck(object):
+    """Sets of short strings (items that are themselves iterable and containable in each other) against operands of
+    the stated types."""
+    ITEMS = ['', 'a', 'b', 'ab', 'cd', 'abc', 'bc', 'd', 'abcd']
+    # operand types are those the property quantifies over (set, frozenset, list, tuple, IndexedSet); what a str,
+    # bytes, range, mapping or one-shot iterable operand should mean is not stated (today issubset('abcd') tests
+    # substrings and difference(generator) drains it on the first item) and is not judged
+    OPERANDS = [['list', ['ab', 'cd']], ['list', ['a', 'b', 'c', 'd', 'a', 'b', 'c', 'd', '']], ['list', []],
+                ['tuple', ['abc', 'abcd', '', 'q', 'r', 's', 't', 'u', 'v', 'w']], ['tuple', ['a']],
+                ['set', ['ab', 'cd', 'e', 'f', 'g', 'h']], ['frozenset', ['', 'a', 'abcd']], ['iset', ['bc', 'b', 'c']],
+                ['set', []], ['list', ['abcd', 'abc', 'ab', 'a', '']]]
+
+    def ops_of(self, h):
+        return h['items']
+
+    def with_ops(self, h, ops):
+        return dict(h, items=list(ops))
+
+    def gen(self, r, ctx):
+        return {'kind': 'strings', 'items': [r.choice(self.ITEMS) for _ in range(r.choice([0, 1, 2, 3, 5]))],
+                'operand': r.choice(self.OPERANDS), 'pred': r.choice(['isdisjoint', 'issubset', 'issuperset',
+                                                                      'intersection', 'difference', 'union'])}
+
+    def run(self, h, stats=None):
+        su = common.load('setutils')
+        items, (kind, v), pred = h['items'], h['operand'], h['pred']
+        s = su.IndexedSet(items)
+        py = outcome(lambda: getattr(set(items), pred)(mk_operand(su, kind, v)))
+        got = outcome(lambda: getattr(s, pred)(mk_operand(su, kind, v)))
+        if got[0] == 'ok' and isinstance(got[1], su.IndexedSet):
+            got = ('ok', set(got[1]))
+        if stats is not None:
+            stats.monitor_evals += 1
+            stats.count('string-item-sets')
+        if got != py:
+            return Failure(0, 'result[%s]' % pred, 'IndexedSet(%r).%s(%s %r) -> %r, Python set says %r'
+                           % (items, pred, kind, v, got, py), [pred, [kind, v]])
+        return None
+
+    def signature(self, h, f):
+        return 'strings:%s:%s-operand' % (h['pred'], h['operand'][0])
+
+
 def run(ctx):
     n = {'quick': 300, 'thorough': 15000}[ctx.tier]
+    explore(ctx, StrCheck(), {'quick': 1500, 'thorough': 30000}[ctx.tier], 'strings')
     explore(ctx, Check(False), n, 'short')
     explore(ctx, Check('medium'), {'quick': 150, 'thorough': 6000}[ctx.tier], 'medium')
     explore(ctx, Check(True), {'quick': 1, 'thorough': 20}[ctx.tier], 'long')
@@ -674,5 +718,8 @@ def run(ctx):
 
 def replay(witness):
     h = witness['history']
+    if h.get('kind') == 'strings':
+        f = StrCheck().run(h, None)
+        return repr(f) if f else None
     f = Check(h.get('kind') == 'long').run(h, None)
     return repr(f) if f else None
